@@ -723,5 +723,62 @@ func c12Exposure(r *Report) {
 			})
 		}
 		r.Sentinel("R3.votes", nV, 1)
+		// … and are dropped only once the metadata is complete: votes are cast when a peer's extended handshake arrives,
+		// never again for the peers already connected. A failed assembly (hash mismatch, a dictionary MetadataComplete
+		// refuses) that also drops the votes leaves metadataGuess without a size: nothing is requested any more.
+		mcF := p.Func("tor", "Torrent.MetadataComplete")
+		icF := p.Func("tor", "Torrent.InfoComplete")
+		completed := func(g Guard) bool {
+			if x, isNil, ok := nilFact(g); ok && isNil {
+				if c, _ := callOfValue(x); c != nil && mcF != nil && c.Call.StaticCallee() == mcF {
+					return true
+				}
+			}
+			g = g.norm()
+			if c, ok := g.Cond.(*ssa.Call); ok && g.Pol && icF != nil && c.Call.StaticCallee() == icF {
+				return true
+			}
+			return false
+		}
+		lazy := func(in ssa.Instruction) bool {
+			// if t.infoSizeVotes == nil { t.infoSizeVotes = make(…) }
+			for _, g := range guardsOf(in.Block()) {
+				if x, isNil, ok := nilFact(g); ok && isNil {
+					if fv, _ := loadedField(x); fv == votes {
+						return true
+					}
+				}
+			}
+			return false
+		}
+		nD := 0
+		for _, f := range p.SrcFuncs() {
+			if relPkg(f) != "tor" {
+				continue
+			}
+			allInstrs(f, func(in ssa.Instruction) {
+				drop := false
+				switch x := in.(type) {
+				case *ssa.Store:
+					if fa, ok := x.Addr.(*ssa.FieldAddr); ok && fieldVar(fa) == votes && !lazy(in) {
+						drop = true
+					}
+				case *ssa.Call:
+					if bi, ok := x.Call.Value.(*ssa.Builtin); ok && (bi.Name() == "clear" || bi.Name() == "delete") && len(x.Call.Args) > 0 {
+						if fv, _ := loadedField(x.Call.Args[0]); fv == votes {
+							drop = true
+						}
+					}
+				}
+				if !drop {
+					return
+				}
+				nD++
+				r.Fn(f)
+				r.Check(p.factHolds(in, completed, 0), "R3", fname(f)+"/size-votes-dropped-only-when-complete", in.Pos(), "the size votes are dropped only behind a successful MetadataComplete()",
+					"the votes for the metadata size are dropped on a way on which the metadata has not been completed (a failed assembly): votes are only cast when a peer's extended handshake arrives, so with the same peers metadataGuess has no size any more, nothing is requested and every honest block is refused — the download cannot complete after a corruption")
+			})
+		}
+		r.Sentinel("R3.vote-drops", nD, 1)
 	}
 }
